@@ -57,6 +57,8 @@ def make_region(spec):
         vis['symbol'] = spec.get('symbol', '+')
     kw = {'meta': RegionMeta(meta), 'visual': RegionVisual(vis)}
     ang = spec.get('angle', 30.0) * u.deg
+    if spec.get('angle_unit'):
+        ang = ang.to(getattr(u, spec['angle_unit']))      # same angle, other unit (the writer must convert it)
     if frame == 'image':
         x, y = PIXPOS[spec['pos']]
         s = SIZES_PIX[spec['size']]
@@ -263,6 +265,8 @@ def single_cases(tier):
                             if tier == 'quick' and typ == 'ann' and inc is True:
                                 continue
                             spec = {'shape': shape, 'frame': frame, 'pos': pos, 'size': size, 'include': inc, 'type': typ}
+                            if shape in ('ellipse', 'rectangle') and pos == 1:
+                                spec['angle_unit'] = 'rad' if inc is False else 'arcmin'
                             if frame == 'image':
                                 for fmt in fmts:
                                     out.append([spec, 'image', fmt, None])
